@@ -170,7 +170,7 @@ prop('C19', ['DC1', 'DC2', 'DC3', 'DC4', 'DC5', 'G4', 'F8'],
      'class is processed by dataclasses.dataclass exactly once (DC5); eq/hash agreement (F8).',
      ['all layouts and values', '__post_init__ behaviour'])
 
-prop('C20', ['R1', 'R2', 'R3', 'F1'],
+prop('C20', ['R1', 'R2', 'R3', 'R4', 'F1'],
      'Ravel: each partial binds exactly the leading parameters of its target (R1); shape guard and '
      '(mixed-dtype) dtype guard dominate the split, chunks/shapes/dtypes are joined by the strict '
      'zip (R2); the three backends have the same structure (R3); options forwarded (F1).',
